@@ -43,6 +43,8 @@ namespace occa {
     dim_t lo = (mem->offset / alignment) * alignment; //Round down to alignment
     dim_t hi = ((mem->offset + mem->size + alignment - 1)
                 / alignment) * alignment; //Round up
+    /*Bytes of [lo,hi) which no other reservation already occupies*/
+    dim_t newBytes = hi-lo;
     for (modeMemory_t* m : reservations) {
       const dim_t mlo = (m->offset / alignment) * alignment;
       const dim_t mhi = ((m->offset + m->size + alignment - 1)
@@ -50,17 +52,14 @@ namespace occa {
       if (mlo >= hi) break;
       if (mhi <= lo) continue;
 
-      if (mlo <= lo && mhi >= hi) {
-        hi = lo;
-      } else {
-        hi = std::min(hi, mhi);
-        lo = std::max(lo, mlo);
-      }
+      /*Take out the part of [lo,hi) under m and carry on to the right of it*/
+      newBytes -= std::min(hi, mhi) - std::max(lo, mlo);
+      lo = std::min(hi, mhi);
       if (lo == hi) break;
     }
     /*Add this mem to the reservation list*/
     reservations.emplace(mem);
-    reserved += hi-lo;
+    reserved += newBytes;
   }
 
   void modeMemoryPool_t::removeModeMemoryRef(modeMemory_t *mem) {
@@ -74,6 +73,8 @@ namespace occa {
     dim_t lo = (mem->offset / alignment) * alignment; //Round down to alignment
     dim_t hi = ((mem->offset + mem->size + alignment - 1)
                 / alignment) * alignment; //Round up
+    /*Bytes of [lo,hi) which no remaining reservation still occupies*/
+    dim_t freedBytes = hi-lo;
     for (modeMemory_t* m : reservations) {
       const dim_t mlo = (m->offset / alignment) * alignment;
       const dim_t mhi = ((m->offset + m->size + alignment - 1)
@@ -81,15 +82,12 @@ namespace occa {
       if (mlo >= hi) break;
       if (mhi <= lo) continue;
 
-      if (mlo <= lo && mhi >= hi) {
-        hi = lo;
-      } else {
-        hi = std::min(hi, mhi);
-        lo = std::max(lo, mlo);
-      }
+      /*Take out the part of [lo,hi) under m and carry on to the right of it*/
+      freedBytes -= std::min(hi, mhi) - std::max(lo, mlo);
+      lo = std::min(hi, mhi);
       if (lo == hi) break;
     }
-    reserved -= hi-lo;
+    reserved -= freedBytes;
   }
 
   bool modeMemoryPool_t::needsFree() const {
